@@ -970,6 +970,9 @@ class MinimizeBalancedPairs(MinimizeSurroundingPairs):
                 chunk_mid_start = chunk_lhs_end
                 mid_chunk_idx = summary.index("S", lhs_chunk_idx + 1)
                 while chunk_mid_start < chunk_rhs_start:
+                    if stop_after_time is not None and time.time() > stop_after_time:
+                        return
+
                     assert (
                         summary.count("S", 0, mid_chunk_idx) * chunk_size
                         == chunk_mid_start
@@ -1067,6 +1070,9 @@ class MinimizeBalancedPairs(MinimizeSurroundingPairs):
                             worked = True
                     if worked:
                         continue
+
+                    if stop_after_time is not None and time.time() > stop_after_time:
+                        return
 
                     # Try moving the chunk before.
                     testcase_suggestion.parts = cast(List[bytes], _parts_before(parts))
